@@ -10,3 +10,5 @@ import Theorems.C11
 #print axioms C11.info_mask_length
 #print axioms C11.interleaved_is_bitreversal
 #print axioms C11.sc_decodes_clean_interleaved
+#print axioms C11.sumProduct_signLaw
+#print axioms C11.sc_decodes_clean_sum_product
